@@ -24,6 +24,7 @@ ASSUMPTIONS = ['the random-generator state (random, numpy.random) is saved next 
 CLASSES = {
     'boundaries': {'quick': 384, 'thorough': 1920},
     'copies': {'quick': 192, 'thorough': 1000},
+    'restore_reconfigure': {'quick': 240, 'thorough': 3000},
     'final_dump': {'quick': 240, 'thorough': 1500},
     'sigkill': {'quick': 48, 'thorough': 240},
 }
@@ -238,6 +239,62 @@ def run_final_dump(rng, obs, tmp):
     obs.notes = {'stopped_at': a['gens'], 'continued': m}
 
 
+def run_restore_reconfigure(rng, obs, tmp):
+    """a restored solver is a solver like any other: reconfigured right after the restore (another penalty, constraints, ranges, a fresh
+    evaluation monitor) it continues exactly like the uninterrupted solver that was reconfigured at the same point"""
+    import dill
+    from mystic.solvers import LoadSolver
+    from mystic.monitors import Monitor
+    cfg = gen_cfg(rng)
+    cfg['stepmon_kind'] = 'plain'; cfg['evalmon_kind'] = rng.choice(['plain', 'none'])
+    cfg['save'] = rng.choice(['SaveSolver', 'dill']); cfg['restore'] = 'LoadSolver' if cfg['save'] == 'SaveSolver' else 'dill'
+    dim = cfg['dim']
+    what = rng.choice(['penalty', 'penalty', 'constraints', 'ranges', 'evalmon'])
+    pen2 = K.gen_penalty(rng, dim)
+    box2 = K.gen_box(rng, dim, cfg['x0'], shape='finite')
+    cons2 = K.gen_constraint(rng, dim, cfg.get('box'))
+    k = rng.randint(1, cfg['steps'] - 2); m = rng.randint(2, 5)
+    obs.desc = dict(cfg, reconfigure=what, at=k, more=m)
+    kw = K.step_kwargs(cfg)
+    def reconf(s):
+        if what == 'penalty': s.SetPenalty(K.make_penalty(pen2))
+        elif what == 'constraints': s.SetConstraints(K.make_constraint(cons2))
+        elif what == 'ranges': s.SetStrictRanges(list(box2['lo']), list(box2['hi']))
+        else: s.SetEvaluationMonitor(Monitor())
+    def drop(st):      # (the evaluation monitor is replaced in the 'evalmon' variant: compare everything else)
+        return {q: v for q, v in st.items() if not (what == 'evalmon' and q in ('evalmon',))}
+    random.seed(obs.seed); np.random.seed(obs.seed % (2 ** 32))
+    pa = K.CostProbe(K.make_cost(cfg['cost']))
+    a = build(cfg, tmp, pa)
+    for _ in range(k): a.Step(**kw)
+    st = rng_get()
+    blob = None
+    if cfg['save'] == 'SaveSolver':
+        fn = os.path.join(tmp, 'mid.pkl'); a.SaveSolver(fn)
+    else:
+        blob = dill.dumps(a)
+    rng_set(st)
+    reconf(a)
+    ref = []
+    for _ in range(m):
+        a.Step(**kw); ref.append(drop(full_state(a)))
+    rng_set(st)
+    b = LoadSolver(fn) if blob is None else dill.loads(blob)
+    rng_set(st)
+    reconf(b)
+    got = []
+    for _ in range(m):
+        b.Step(**kw); got.append(drop(full_state(b)))
+    first = next((j for j, (u, v) in enumerate(zip(ref, got)) if u != v), None)
+    obs.check(first is None, 'resume:continuing the restored solver reproduces the uninterrupted run', k=k, step=first, save=cfg['save'], restore=cfg['restore'],
+              solver=cfg['solver'], reconfigured=what, field=None if first is None else first_diff(ref[first], got[first]),
+              observed=None if first is None else str(got[first].get(first_diff(ref[first], got[first])))[:200],
+              expected=None if first is None else str(ref[first].get(first_diff(ref[first], got[first])))[:200])
+    obs.event('restore_points'); obs.event('assert:resume', m); obs.event('reconfigured_after_restore')
+    obs.nontrivial = ref[-1]['best'] != ref[0]['best'] or what != 'evalmon'
+    obs.notes = {'k': k, 'more': m, 'what': what}
+
+
 def run_copies(rng, obs, tmp):
     """deep copies (and dill round trips) of a live solver are independent and keep counting their own evaluations"""
     import dill
@@ -368,6 +425,6 @@ def run_case(cls, idx, rng, obs):
     tmp = os.path.join(env.OUT, 'c06', '%s-%d-%d' % (cls, idx, os.getpid()))
     os.makedirs(tmp, exist_ok=True)
     try:
-        return {'boundaries': run_boundaries, 'copies': run_copies, 'sigkill': run_sigkill, 'final_dump': run_final_dump}[cls](rng, obs, tmp)
+        return {'boundaries': run_boundaries, 'copies': run_copies, 'sigkill': run_sigkill, 'final_dump': run_final_dump, 'restore_reconfigure': run_restore_reconfigure}[cls](rng, obs, tmp)
     finally:
         shutil.rmtree(tmp, ignore_errors=True)
